@@ -659,7 +659,10 @@ def predicate_transfer(seed, version, size):
     fails = []
     with warnings.catch_warnings():
         warnings.simplefilter("ignore")
-        adm, _ = docs.make_doc(seed, version, size)
+        try:
+            adm, _ = docs.make_doc(seed, version, size)
+        except Exception as e:
+            return [("chna-transfer-make_doc-raises", {"exc": "%s: %s" % (type(e).__name__, e)})]
         want = {t.id: _track_state(t) for t in adm.audioTrackUIDs}
         chna = ChnaChunk()
         try:
@@ -672,10 +675,17 @@ def predicate_transfer(seed, version, size):
                 None if t.audioPackFormat is None else t.audioPackFormat.id) for t in adm.audioTrackUIDs]
         if rows != exp:
             fails.append(("chna-transfer-rows-not-the-trackuids", {"rows": rows[:6], "trackUIDs": exp[:6]}))
-        axml = axml_of(adm)
+        try:
+            axml = axml_of(adm)
+        except Exception as e:
+            return fails + [("chna-transfer-adm_to_xml-raises", {"exc": "%s: %s" % (type(e).__name__, e)})]
         for mode in ("axml-refs-kept", "track-info-stripped"):
             fresh = copy.deepcopy(docs.common())  # = ADM() + load_common_definitions, without re-parsing the file
-            load_axml_string(fresh, axml)
+            try:
+                load_axml_string(fresh, axml)
+            except Exception as e:
+                return fails + [("chna-transfer-load_axml_string-raises",
+                                 {"exc": "%s: %s" % (type(e).__name__, str(e)[:400]), "axml_written": axml.decode()[:3000]})]
             if mode == "track-info-stripped":
                 for t in fresh.audioTrackUIDs:
                     t.audioTrackFormat = t.audioChannelFormat = t.audioPackFormat = None
@@ -714,9 +724,12 @@ def predicate_chna_only(seed):
     fails = []
     with warnings.catch_warnings():
         warnings.simplefilter("ignore")
-        adm, _ = docs.make_chna_only_doc(seed)
-        chna = ChnaChunk()
-        populate_chna_chunk(chna, adm)
+        try:
+            adm, _ = docs.make_chna_only_doc(seed)
+            chna = ChnaChunk()
+            populate_chna_chunk(chna, adm)
+        except Exception as e:
+            return [("chna-only-populate-raises", {"exc": "%s: %s" % (type(e).__name__, e)})]
         rows = rows_of(chna)
         fresh = copy.deepcopy(docs.common())
         try:
@@ -742,6 +755,27 @@ def _local(el):
     return t.split("}")[-1] if isinstance(t, str) else ""
 
 
+def _baseline(seed, version, size):
+    """the generated document, written and read back without any fault injected: (adm, lxml root), or a list with one
+    failure when the real code raises already here (so that it is not mistaken for the reaction to the fault)"""
+    import lxml.etree
+    from ear.fileio.adm.xml import parse_string
+
+    try:
+        adm, _ = docs.make_doc(seed, version, size)
+        stage = "adm_to_xml"
+        axml = axml_of(adm)
+        stage = "parse_string"
+        parse_string(axml)
+    except Exception as e:
+        st = locals().get("stage", "make_doc")
+        det = {"exc": "%s: %s" % (type(e).__name__, str(e)[:400])}
+        if st == "parse_string":
+            det["axml_written"] = axml.decode()[:3000]
+        return [("unmodified-document-%s-raises" % st, det)]
+    return adm, lxml.etree.fromstring(axml)
+
+
 def predicate_duplicate(seed, version, size):
     """a document in which one main element occurs twice (same id, same class) is rejected with AdmIDError by
     parse_string — it is never resolved to one of the two"""
@@ -752,8 +786,10 @@ def predicate_duplicate(seed, version, size):
     rng = random.Random("c08dup/%d/%d/%d" % (seed, version, size))
     with warnings.catch_warnings():
         warnings.simplefilter("ignore")
-        adm, _ = docs.make_doc(seed, version, size)
-        root = lxml.etree.fromstring(axml_of(adm))
+        base = _baseline(seed, version, size)
+        if isinstance(base, list):
+            return base, "baseline"
+        adm, root = base
         mains = [el for el in root.iter() if _local(el) in MAIN_TAGS]
         el = rng.choice(mains)
         dup = copy.deepcopy(el)
@@ -788,8 +824,10 @@ def predicate_dangling(seed, version, size):
     rng = random.Random("c08dangling/%d/%d/%d" % (seed, version, size))
     with warnings.catch_warnings():
         warnings.simplefilter("ignore")
-        adm, _ = docs.make_doc(seed, version, size)
-        root = lxml.etree.fromstring(axml_of(adm))
+        base = _baseline(seed, version, size)
+        if isinstance(base, list):
+            return base, "baseline"
+        adm, root = base
         refs = [el for el in root.iter() if _local(el).endswith("IDRef") or _local(el) == "audioTrackUIDRef"]
         if not refs:
             return [], None
